@@ -9,7 +9,10 @@ SRC = os.environ.get("CB_VERIF_SRC", "/repo")
 SYM = {"TOK_OR": "||", "TOK_AND": "&&", "TOK_BIT_OR": "|", "TOK_BIT_XOR": "^", "TOK_BIT_AND": "&", "TOK_EQ": "==",
        "TOK_NE": "!=", "TOK_LT": "<", "TOK_LE": "<=", "TOK_GT": ">", "TOK_GE": ">=", "TOK_LEFT_SHIFT": "<<",
        "TOK_RIGHT_SHIFT": ">>", "TOK_PLUS": "+", "TOK_MINUS": "-", "TOK_MUL": "*", "TOK_DIV": "/", "TOK_MOD": "%",
-       "TOK_NOT": "!", "TOK_BIT_NOT": "~"}
+       "TOK_NOT": "!", "TOK_BIT_NOT": "~",
+       "TOK_ASSIGN": "=", "TOK_PLUS_ASSIGN": "+=", "TOK_MINUS_ASSIGN": "-=", "TOK_MUL_ASSIGN": "*=", "TOK_DIV_ASSIGN": "/=",
+       "TOK_MOD_ASSIGN": "%=", "TOK_AND_ASSIGN": "&=", "TOK_OR_ASSIGN": "|=", "TOK_XOR_ASSIGN": "^=", "TOK_LSHIFT_ASSIGN": "<<=",
+       "TOK_RSHIFT_ASSIGN": ">>="}
 
 
 def functions(text, cls):
@@ -71,6 +74,26 @@ def main():
             raise ValueError("ladder: %s does not take its right operand from %s (associativity changed?)" % (cur, nxt))
         levels.append((cur, [SYM[t] for t in toks]))
         cur = nxt
+    # the assignment level: `left = parseTernary(); if (check(A1) || check(A2) ...) { ...; right = parseAssignment(); ... }`
+    pa = fs.get("parseAssignment")
+    if pa is None:
+        raise ValueError("parseAssignment not found")
+    pa_nc = re.sub(r"//[^\n]*", "", pa)
+    if not re.search(r"ASTNode \*left = parseTernary\(\);", pa_nc):
+        raise ValueError("parseAssignment: the left side is not taken from parseTernary()")
+    am = re.search(r"\n    if \(((?:\s*parser_->check\(TokenType::TOK_\w*ASSIGN\)\s*(?:\|\|)?)+)\)\s*\{", pa_nc)
+    if not am:
+        raise ValueError("parseAssignment: operator test not recognised")
+    assign_toks = re.findall(r"TokenType::(\w+)", am.group(1))
+    if not re.search(r"ASTNode \*right = parseAssignment\(\);", pa_nc):
+        raise ValueError("parseAssignment: the right side is not taken from parseAssignment() (right-associativity changed?)")
+    if pa_nc.count("parseAssignment()") != 1 or pa_nc.count("parseTernary()") != 1:
+        raise ValueError("parseAssignment: unexpected additional calls of parseAssignment() / parseTernary()")
+    if 'parser_->error("Invalid assignment target")' not in pa_nc:
+        raise ValueError("parseAssignment: the rejection of a non-lvalue target was not found")
+    if "parseExpression" not in fs or not re.search(r"return parseAssignment\(\);", fs["parseExpression"]):
+        raise ValueError("parseExpression does not start at parseAssignment()")
+    assign_ops = [SYM[t] for t in assign_toks]
     un = fs["parseUnary"]
     m = re.search(r"if \(((?:parser_->check\(TokenType::TOK_(?:NOT|MINUS|BIT_NOT|BIT_AND|MUL)\)\s*(?:\|\|)?\s*)+)\)", un)
     if not m:
@@ -82,13 +105,15 @@ def main():
            "    " + " -> ".join(n for n, _ in levels) + " -> parseUnary -/",
            "def ladder : CbModel.Ladder.Table :=",
            "  { levels := [" + ", ".join("[" + ", ".join('"%s"' % s for s in ops) + "]" for _, ops in levels) + "],",
-           "    unary := [" + ", ".join('"%s"' % s for s in unary) + "] }", "", "end CbGen", ""]
+           "    unary := [" + ", ".join('"%s"' % s for s in unary) + "] }", "",
+           "/-- the operators tested by parseAssignment (left = parseTernary(), right = parseAssignment()) -/",
+           "def assignOps : List String := [" + ", ".join('"%s"' % s for s in assign_ops) + "]", "", "end CbGen", ""]
     new = "\n".join(out)
     dst = os.path.join(os.path.dirname(os.path.dirname(os.path.dirname(os.path.abspath(__file__)))), "lean/CbGen/Ladder.lean")
     old = open(dst).read() if os.path.exists(dst) else None
     if old != new:
         open(dst, "w").write(new)
-    print("ladder: %d levels, unary %s%s" % (len(levels), unary, "" if old == new else " (updated)"))
+    print("ladder: %d levels, unary %s, %d assignment operators%s" % (len(levels), unary, len(assign_ops), "" if old == new else " (updated)"))
 
 
 if __name__ == "__main__":
